@@ -60,7 +60,7 @@ def strings():
 
 
 def values():
-    jobj = st.dictionaries(st.sampled_from(["a", "b", "k k"]), st.one_of(st.integers(-5, 5), st.sampled_from(["x", "y z", "q=1"]), st.booleans(), st.none()), min_size=1, max_size=3)
+    jobj = st.dictionaries(st.sampled_from(["a", "b", "k k", "Host", "KEY"]), st.one_of(st.integers(-5, 5), st.sampled_from(["x", "y z", "q=1", "DB01", "True", "Null"]), st.booleans(), st.none()), min_size=1, max_size=3)
     return st.one_of(
         st.integers(-10**6, 10**6).map(lambda v: {"t": "int", "v": v}),
         st.tuples(st.integers(-999, 999), st.integers(0, 999)).map(lambda p: {"t": "dec", "v": float("%d.%03d" % p) if p[0] >= 0 else float("-%d.%03d" % (-p[0], p[1])), "txt": ("%d.%03d" % p) if p[0] >= 0 else ("-%d.%03d" % (-p[0], p[1]))}),
